@@ -350,4 +350,99 @@ example : (sentinelCfg 1000).readParam true .max_open_interest .none_ (some fals
 example : rowSide ⟨.max_pool_amount, .none_, some true, .self_, .field .max_pool_amount_for_long_token⟩ = some true := by decide +kernel
 example : (StoreCfg.zero.setAmount .RequestExpiration 9).bind (fun s => s.getAmount .RequestExpiration) = some 9 := by decide +kernel
 
+/-! ## audit additions: hypotheses are jointly satisfiable; strengthened statements -/
+
+/-- `key_field_injective` / `key_indices_distinct` are not vacuous: distinct keys do read distinct
+fields and have distinct discriminants -/
+example : getField .ReserveFactor ≠ getField .OpenInterestReserveFactor ∧
+    Key.index .ReserveFactor ≠ Key.index .OpenInterestReserveFactor := by decide +kernel
+
+/-- `set_then_get`, `set_other_unchanged`, `set_keeps_flags` instantiated on a concrete successful
+write into a non-initial config (a flag already set) -/
+example : ∃ c', (Cfg.zero.setFlag .EnableMarketClosedParams true).set .ReserveFactor 7 = some c' ∧
+    c'.get .ReserveFactor = some 7 ∧
+    c'.get .OpenInterestReserveFactor = (Cfg.zero.setFlag .EnableMarketClosedParams true).get .OpenInterestReserveFactor ∧
+    c'.bits = (Cfg.zero.setFlag .EnableMarketClosedParams true).bits :=
+  ⟨_, rfl, set_then_get _ _ .ReserveFactor 7 rfl,
+    set_other_unchanged _ _ .ReserveFactor .OpenInterestReserveFactor 7 rfl (by decide),
+    set_keeps_flags _ _ .ReserveFactor 7 rfl⟩
+
+/-- `flags_independent` instantiated: clearing another flag keeps a set flag set -/
+example : ((Cfg.zero.setFlag .EnableMarketClosedParams true).setFlag .SkipBorrowingFeeForSmallerSide false).flag
+    .EnableMarketClosedParams = true := by
+  rw [flags_independent _ _ _ _ (by decide)]; exact flag_set_get _ _ _
+
+/-- `long_short_not_crossed` ranges over a non-trivial set: several rows of EACH side (recognised by
+the `is_long` argument or by the `long.`/`short.` builder prefix) read at least one config atom -/
+example : (progWiring.filter fun r => rowSide r == some true && !(srcAtoms r.src).isEmpty).length ≥ 5 ∧
+    (progWiring.filter fun r => rowSide r == some false && !(srcAtoms r.src).isEmpty).length ≥ 5 ∧
+    (progWiring.filter fun r => r.side == none && (rowSide r).isSome && !(srcAtoms r.src).isEmpty).length ≥ 4 := by
+  decide +kernel
+
+/-- … instantiated on the long kink-model base factor (a helper row: both switch states are checked) -/
+example : containsCodes (Atom.codes (.field .market_closed_borrowing_fee_base_factor)) (asc "short") = false :=
+  (long_short_not_crossed
+    ⟨.borrowing_fee_kink_model_params, .none_, none, .long_base_borrowing_factor, .helper .borrowing_fee_base_factor (some true)⟩
+    (by decide +kernel) (.field .market_closed_borrowing_fee_base_factor) (by decide +kernel)).1 (by decide +kernel)
+
+/-- `sided_keys_are_wired`: the premises hold for many keys (both sides) -/
+example : (Key.all.filter fun k => match getField k with
+      | some f => containsCodes f.codes (asc "long") | none => false).length ≥ 10 ∧
+    (Key.all.filter fun k => match getField k with
+      | some f => containsCodes f.codes (asc "short") | none => false).length ≥ 10 := by decide +kernel
+
+/-- `every_setting_is_wired`: the documented exception is a real one (the disjunction is tight) -/
+example : (progWiring.any fun r => (srcAtoms r.src).contains (.field .min_tokens_for_first_deposit)) = false := by
+  decide +kernel
+
+/-- Stronger form of `set_then_param`: the row is the one the PROGRAM's wiring table resolves for the
+model parameter (`set_then_param` accepts any row, in the table or not), and the value is observed
+through `readParam`, i.e. through the table lookup. -/
+theorem set_then_readParam (c c' : Cfg) (closed : Bool) (k : Key) (f : Field) (v : Nat)
+    (m : Method) (vr : Variant) (side : Option Bool) (p : Param) (r : Row)
+    (hrow : findRow progWiring m vr side p = some r) (hk : getField k = some f) (hr : r.src = .field f)
+    (h : c.set k v = some c') : c'.readParam closed m vr side p = some (.num v) := by
+  unfold Cfg.readParam
+  rw [hrow]
+  exact set_then_param c c' closed k f v r hk hr h
+
+/-- non-vacuity of `set_then_param` / `set_then_readParam`: writing `MaxOpenInterestForShort` is seen by
+the short-side `max_open_interest` parameter -/
+example : ∃ c', (sentinelCfg 1000).set .MaxOpenInterestForShort 7 = some c' ∧
+    c'.readParam true .max_open_interest .none_ (some false) .self_ = some (.num 7) :=
+  ⟨_, rfl, set_then_readParam _ _ true .MaxOpenInterestForShort .max_open_interest_for_short 7
+    .max_open_interest .none_ (some false) .self_
+    ⟨.max_open_interest, .none_, some false, .self_, .field .max_open_interest_for_short⟩
+    (by decide +kernel) (by decide +kernel) rfl rfl⟩
+
+/-- `side.getD true` in `readHelper` / `srcAtoms` never fires for a helper that takes a side: every
+such helper row of the program names its side explicitly (so no short-side parameter silently reads
+the long-side default) -/
+theorem helper_rows_name_their_side :
+    ∀ r ∈ progWiring, (match r.src with
+      | .helper h side => !Helper.takesSide h || side.isSome
+      | _ => true) = true := by
+  decide +kernel
+
+/-- `fillFrom` (the harness config) uses `getD c` on a failed write: unreachable, every write succeeds,
+so the sentinel config really carries `base + index` at every key -/
+theorem sentinel_reads_back : ∀ k : Key, (sentinelCfg 1000).get k = some (1000 + k.index) := by
+  intro k; cases k <;> decide +kernel
+
+/-- `store_factor_set_then_get` / `store_address_set_then_get` instantiated (a write, its read-back, and
+an untouched sibling) -/
+example : ∃ s', StoreCfg.zero.setFactor .MaxBuilderFeeFactor 9 = some s' ∧
+    s'.getFactor .MaxBuilderFeeFactor = some 9 ∧
+    s'.getFactor .OracleRefPriceDeviation = StoreCfg.zero.getFactor .OracleRefPriceDeviation :=
+  ⟨_, rfl, (store_factor_set_then_get _ _ .MaxBuilderFeeFactor 9 rfl).1,
+    (store_factor_set_then_get _ _ .MaxBuilderFeeFactor 9 rfl).2 .OracleRefPriceDeviation (by decide)⟩
+example : ∃ s', StoreCfg.zero.setAddress .Holding 9 = some s' ∧ s'.getAddress .Holding = some 9 :=
+  ⟨_, rfl, (store_address_set_then_get _ _ .Holding 9 rfl).1⟩
+example : ∃ s', StoreCfg.zero.setAmount .RequestExpiration 9 = some s' ∧
+    s'.getAmount .RequestExpiration = some 9 ∧ s'.getAmount .OracleMaxAge = StoreCfg.zero.getAmount .OracleMaxAge :=
+  ⟨_, rfl, (store_amount_set_then_get _ _ .RequestExpiration 9 rfl).1,
+    (store_amount_set_then_get _ _ .RequestExpiration 9 rfl).2 .OracleMaxAge (by decide)⟩
+/-- the refused key of `claimable_time_window_readonly`, concretely -/
+example : (StoreCfg.zero.setAmount .ClaimableTimeWindow 9).isNone = true := by decide +kernel
+
 end Gmx.C16
